@@ -37,6 +37,7 @@ class H:
         self.sim = sim
         self.plan = plan
         self.tag = Tagger()
+        self.pre_ctx: dict[str, Any] = {}
         self.ids: dict[int, str] = {}
         self.ctxs: dict[str, Context] = {}
         self.keep: list[Any] = []
@@ -96,8 +97,15 @@ class H:
                 else:
                     sim.log("body_end", ctx=cid, how="return", exc=None)
         except BaseException as e:
-            sim.log("ctx_exit", ctx=cid, exc=describe(e))
-            if contains_cancel(e) or sim.aborting or not b.get("catch", True):
+            import math
+
+            # a cancellation exception is only a cancellation if a cancel scope around us
+            # is really cancelled; otherwise it is a stray one (e.g. a teardown action let
+            # the CancelledError of a helper task it had cancelled itself escape)
+            real = anyio.current_effective_deadline() == -math.inf
+            stray = contains_cancel(e) and not real and not sim.aborting
+            sim.log("ctx_exit", ctx=cid, exc=describe(e), stray_cancel=stray)
+            if ((contains_cancel(e) and not stray) or sim.aborting or not b.get("catch", True)) and not stray:
                 raise
         else:
             sim.log("ctx_exit", ctx=cid, exc=None)
@@ -207,6 +215,11 @@ class H:
     async def svc(self, spec: dict, cid: str) -> None:
         sim = self.sim
         owner = current_context()
+        if spec.get("on") in self.ctxs and not self.ctxs[spec["on"]].closed:
+            # the *method* of another (enclosing, still open) context, called while a
+            # nested context is current: that context is the owner
+            owner = self.ctxs[spec["on"]]
+            cid = spec["on"]
         name = spec["name"]
         body_spec = spec.get("body", {})
         mode = body_spec.get("mode", "until_cancel")
@@ -282,8 +295,16 @@ class H:
                 sim.log("act_call", svc=name)
                 if a.get("signal", True):
                     ev.set()
+                if a.get("raises") == "CE" and sim.backend == "asyncio":
+                    # the action cancelled a helper task of its own and let that task's
+                    # CancelledError escape: an exception of the action like any other
+                    import asyncio as _asyncio
+
+                    sim.fault("raise_in_teardown_action")
+                    sim.log("act_raise", svc=name, exc="stray_cancel")
+                    raise _asyncio.CancelledError("helper task of the teardown action")
                 if a.get("raises"):
-                    e = h.tag.make(a["raises"])
+                    e = h.tag.make(a["raises"] if a["raises"] != "CE" else "SimFatal")
                     sim.fault("raise_in_teardown_action")
                     sim.log("act_raise", svc=name, exc=describe(e))
                     raise e
@@ -295,15 +316,21 @@ class H:
                     await sim.pause(0, a.get("dur", 0.0))
                     fire()
 
-            elif a.get("kind") == "sync_aw":
+            elif a.get("kind") in ("sync_aw", "aw_obj"):
 
                 async def _inner() -> None:
                     await sim.pause(0, a.get("dur", 0.0))
                     fire()
 
+                class _AwAct:
+                    """An awaitable that is not a coroutine object."""
+
+                    def __await__(self_) -> Any:
+                        return _inner().__await__()
+
                 def act() -> Any:  # type: ignore[misc]
                     sim.log("act_begin", svc=name)
-                    return _inner()
+                    return _inner() if a.get("kind") == "sync_aw" else _AwAct()
 
             else:
 
@@ -360,6 +387,9 @@ class H:
     async def tf(self, spec: dict, cid: str) -> None:
         sim = self.sim
         owner = current_context()
+        if spec.get("on") in self.ctxs and not self.ctxs[spec["on"]].closed:
+            owner = self.ctxs[spec["on"]]
+            cid = spec["on"]
         fid = spec["id"]
         handler = spec.get("handler")
         h = self
@@ -412,6 +442,7 @@ class H:
                 grandparent=h.cid(par.parent) if par is not None else None,
                 view=h.view(c),
                 fview=h.fview(c),
+                same_as_pre=(h.pre_ctx[tid] is c) if tid in h.pre_ctx else None,
             )
             h.obs_handles(fid, f"in:{tid}")
             if t.get("own_td_raise"):
@@ -453,15 +484,37 @@ class H:
                     sim.log("task_end", tf=fid, task=tid, how="cancelled", exc=None)
                 raise
 
-        if t.get("started_delay") is not None:
+        def pre() -> None:
+            # the synchronous part of a target that is a plain callable returning a
+            # coroutine (a lambda, a callable object): it already runs in the task's own
+            # fresh context, like the rest of the task
+            c = current_context()
+            h.pre_ctx[tid] = c
+            sim.log("task_pre", tf=fid, task=tid, fresh=id(c) not in h.ids, view=h.view(c))
 
-            async def fn(*, task_status: Any) -> Any:
-                return await run(task_status)
+        if t.get("started_delay") is not None:
+            if t.get("sync_part"):
+
+                def fn(*, task_status: Any) -> Any:
+                    pre()
+                    return run(task_status)
+
+            else:
+
+                async def fn(*, task_status: Any) -> Any:  # type: ignore[misc]
+                    return await run(task_status)
 
         else:
+            if t.get("sync_part"):
 
-            async def fn() -> Any:  # type: ignore[misc]
-                return await run(None)
+                def fn() -> Any:  # type: ignore[misc]
+                    pre()
+                    return run(None)
+
+            else:
+
+                async def fn() -> Any:  # type: ignore[misc]
+                    return await run(None)
 
         return fn
 
@@ -640,6 +693,9 @@ def oracle(sim: Sim, plan: dict) -> list[dict]:
     escaped_task_exc = [r for r in tr if (r[4] == "task_end" and r[5]["how"] == "raise") or r[4] == "task_td_raise"]
 
     exits = {r[5]["ctx"]: r for r in tr if r[4] == "ctx_exit"}
+    for r in tr:
+        if r[4] == "ctx_exit" and r[5].get("stray_cancel"):
+            v("C08.action", "cancellation_leaked", f"leaving context {r[5]['ctx']} raised {r[5]['exc']} although nothing around it was cancelled: a cancellation exception raised by a teardown action must be handled like any other failure of the action (fall back to cancelling the task, wait for it)")
     body_ends = {r[5]["ctx"]: r for r in tr if r[4] == "body_end"}
     ctx_parent = {r[5]["ctx"]: r[5]["parent"] for r in tr if r[4] == "ctx_new"}
 
@@ -863,6 +919,9 @@ def oracle(sim: Sim, plan: dict) -> list[dict]:
             d = ts[5]
             if not d["fresh"]:
                 v("C09.context", "not_fresh", f"task {tid} runs in an existing context")
+            pre_ = next((r for r in tr if r[4] == "task_pre" and r[5]["task"] == tid), None)
+            if pre_ is not None and (d.get("same_as_pre") is not True or not pre_[5]["fresh"] or pre_[5]["view"] != d["view"]):
+                v("C09.context", "sync_part_elsewhere", f"task {tid}: the synchronous part of its target ran in another context (fresh={pre_[5]['fresh']}, view {pre_[5]['view']}) than the task itself (view {d['view']})")
             if d["parent"] != f"{fid}.ctx":
                 v("C09.context", "parent", f"task {tid}: context parent is {d['parent']}, expected the factory's own context {fid}.ctx")
             if d["grandparent"] != f["ctx"]:
@@ -1124,8 +1183,8 @@ class G:
         else:
             raises = None
             if rng.random() < 0.35:
-                raises = pick(rng, {"SimError": 3, "SimFatal": 1.5, "KI": 0.5})
-            act = {"kind": pick(rng, {"sync": 3, "async": 3, "sync_aw": 1}), "dur": rng.choice(DTS[:5])}
+                raises = pick(rng, {"SimError": 3, "SimFatal": 1.5, "KI": 0.5, "CE": 0.7})
+            act = {"kind": pick(rng, {"sync": 3, "async": 3, "sync_aw": 1, "aw_obj": 1}), "dur": rng.choice(DTS[:5])}
             if raises:
                 act["raises"] = raises
                 act["signal"] = False
@@ -1185,6 +1244,8 @@ class G:
             t["cls"] = pick(rng, {"SimError": 4, "SimLookup": 1.5, "SimFatal": 0.8})
         if rng.random() < 0.25:
             t["cleanup"] = rng.choice(DTS[1:5])
+        if rng.random() < 0.2:
+            t["sync_part"] = True
         if "end" not in t and rng.random() < 0.12:
             t["own_td_raise"] = pick(rng, {"SimError": 3, "SimLookup": 1})
         return t
@@ -1240,7 +1301,10 @@ class G:
                 self.nrf += 1
                 out.append(["resfac", {"rid": self.nid("q")}])
             elif op == "svc":
-                out.append(self.svc(crash_ok))
+                sv = self.svc(crash_ok)
+                if depth > 0 and rng.random() < 0.2:
+                    sv[1]["on"] = "x1"
+                out.append(sv)
             elif op == "child":
                 self.nctx += 1
                 saved = list(self.tfs)
@@ -1269,6 +1333,8 @@ class G:
                 tfspec: dict = {"id": fid, "handler": handler or None}
                 if handler and rng.random() < 0.25:
                     tfspec["handler_obj"] = True
+                if depth > 0 and rng.random() < 0.2:
+                    tfspec["on"] = "x1"
                 out.append(["tf", tfspec])
                 self.tfs.append(fid)
             elif op == "spawn":
